@@ -14,7 +14,8 @@ Section SfGeneric.
   Context {T : Type} (N : NumOps T).
   Variable le : T -> T -> Prop.
   Hypothesis le_trans : forall a b c, le a b -> le b c -> le a c.
-  Hypothesis min1_le_one : forall p, le (n_min1 N p) (n_one N).
+  Hypothesis min1_le_one : forall a b,
+    le (n_zero N) a -> le (n_zero N) b -> le b (n_one N) -> le (n_min1 N (n_add N a b)) (n_one N).
   Hypothesis step_mono : forall a b,
     le (n_zero N) a -> le (n_zero N) b -> le b (n_one N) -> le b (n_min1 N (n_add N a b)).
 
@@ -43,7 +44,7 @@ Section SfGeneric.
       + split; auto.
       + constructor; auto. split.
         * eapply le_trans; [exact Hn0|]. apply step_mono; auto.
-        * apply min1_le_one.
+        * apply min1_le_one; auto.
   Qed.
 
   Lemma rev_cons_last : forall (l : list T) x r d, rev l = x :: r -> last l d = x /\ l = rev r ++ [x].
